@@ -10,28 +10,41 @@ from pathlib import Path
 from . import census, common, gen
 
 
+# measured on the unchanged tree: every path peaks below 2.1 MiB and grows by < 0.4 MiB between a 1 MiB and a 32 MiB object
+PEAK_LIMIT = 6 * 1024 * 1024
+GROWTH_LIMIT = 2 * 1024 * 1024
+
+
 class ZeroLike:
-    """A big deterministic, mildly compressible stream generated on the fly (never holds the whole object)."""
+    """A big deterministic stream generated on the fly (never holds the whole object): 64 KiB blocks, each 3/4 fresh
+    pseudo-random bytes and 1/4 filler, so that it deflates to about 3/4 of its size and never repeats."""
 
     mode = 'rb'
+    BLOCK = 65536
 
     def __init__(self, size, seed=1):
-        self.size, self.pos = size, 0
-        import random  # pylint: disable=import-outside-toplevel
+        self.size, self.pos, self.seed = size, 0, seed
+        self._cache = (None, b'')
 
-        self.block = random.Random(seed).randbytes(4096) + b'A' * 4096
+    def _block(self, i):
+        if self._cache[0] != i:
+            import random  # pylint: disable=import-outside-toplevel
+
+            self._cache = (i, random.Random(self.seed * 1000003 + i).randbytes(49152) + b'A' * 16384)
+        return self._cache[1]
 
     def read(self, n=-1):
         if n is None or n < 0:
             n = self.size - self.pos
         n = min(n, self.size - self.pos)
-        if n <= 0:
-            return b''
-        start = self.pos % len(self.block)
-        reps = (start + n) // len(self.block) + 1
-        out = (self.block * reps)[start:start + n]
-        self.pos += n
-        return out
+        out = []
+        while n > 0:
+            i, off = divmod(self.pos, self.BLOCK)
+            piece = self._block(i)[off:off + n]
+            out.append(piece)
+            self.pos += len(piece)
+            n -= len(piece)
+        return b''.join(out)
 
     def seek(self, target, whence=0):
         if whence == 1:
@@ -304,9 +317,9 @@ def _memory(case, base):  # noqa: C901
         common.rmtree(os.path.join(base, f'c{size}'))
         common.rmtree(os.path.join(base, f'dst{size}'))
     small, big = min(peaks), max(peaks)
-    if peaks[big] > 8 * 1024 * 1024:
-        probs.append((f'memory:peak:{path}', f'{path}: tracemalloc peak {peaks[big]} bytes for a {big >> 20} MiB object (> 8 MiB)'))
-    if peaks[big] - peaks[small] > 4 * 1024 * 1024:
+    if peaks[big] > PEAK_LIMIT:
+        probs.append((f'memory:peak:{path}', f'{path}: tracemalloc peak {peaks[big]} bytes for a {big >> 20} MiB object (> {PEAK_LIMIT >> 20} MiB)'))
+    if peaks[big] - peaks[small] > GROWTH_LIMIT:
         probs.append((f'memory:growth:{path}', f'{path}: peak grows from {peaks[small]} ({small >> 20} MiB object) to {peaks[big]} '
                                                f'({big >> 20} MiB object)'))
     return probs, counters, {'probe': 'memory', 'path': path, 'peaks_bytes': {f'{k >> 20}MiB': v for k, v in peaks.items()}}
